@@ -116,6 +116,41 @@ func (s *DeleteStmt) Name() string {
 	return "DELETE"
 }
 
+// checkAggrPlacement rejects an aggregate function where nothing evaluates
+// it: only a select field computes aggregates, and only the ones it reaches
+// through binary operators (evaluated tells whether expr is such a place)
+func checkAggrPlacement(expr Expression, evaluated bool) error {
+	switch e := expr.(type) {
+	case *BinaryOpExpr:
+		if err := checkAggrPlacement(e.Left, evaluated); err != nil {
+			return err
+		}
+		return checkAggrPlacement(e.Right, evaluated)
+	case *FieldReferenceExpr:
+		return checkAggrPlacement(e.FieldExpr, evaluated)
+	case *NotExpr:
+		return checkAggrPlacement(e.Right, false)
+	case *FieldAccessExpr:
+		return checkAggrPlacement(e.Left, false)
+	case *ListExpr:
+		for _, item := range e.List {
+			if err := checkAggrPlacement(item, false); err != nil {
+				return err
+			}
+		}
+	case *FunctionCallExpr:
+		if !evaluated && IsAggrFuncExpr(e) {
+			return NewSyntaxError(e.GetPos(), "Aggregate function %s is not allowed here", e.Name)
+		}
+		for _, arg := range e.Args {
+			if err := checkAggrPlacement(arg, false); err != nil {
+				return err
+			}
+		}
+	}
+	return nil
+}
+
 func (s *RemoveStmt) Validate(ctx *CheckCtx) error {
 	for _, expr := range s.Keys {
 		rtype := expr.ReturnType()
@@ -123,6 +158,9 @@ func (s *RemoveStmt) Validate(ctx *CheckCtx) error {
 			return NewSyntaxError(expr.GetPos(), "need str or number type")
 		}
 		if err := expr.Check(ctx); err != nil {
+			return err
+		}
+		if err := checkAggrPlacement(expr, false); err != nil {
 			return err
 		}
 	}
@@ -140,6 +178,12 @@ func (s *PutStmt) Validate(ctx *CheckCtx) error {
 
 func (s *PutStmt) validateKVPair(kv *PutKVPair, ctx *CheckCtx) error {
 	if err := kv.Key.Check(ctx); err != nil {
+		return err
+	}
+	if err := checkAggrPlacement(kv.Key, false); err != nil {
+		return err
+	}
+	if err := checkAggrPlacement(kv.Value, false); err != nil {
 		return err
 	}
 	switch kv.Key.ReturnType() {
@@ -162,6 +206,9 @@ func (s *PutStmt) validateKVPair(kv *PutKVPair, ctx *CheckCtx) error {
 
 func (s *DeleteStmt) Validate(ctx *CheckCtx) error {
 	if err := s.Where.Expr.Check(ctx); err != nil {
+		return err
+	}
+	if err := checkAggrPlacement(s.Where.Expr, false); err != nil {
 		return err
 	}
 	if s.Where.Expr.ReturnType() != TBOOL {
@@ -193,6 +240,9 @@ func (s *SelectStmt) ValidateFields(ctx *CheckCtx) error {
 
 func (s *SelectStmt) validateField(f Expression, ctx *CheckCtx) error {
 	if err := f.Check(ctx); err != nil {
+		return err
+	}
+	if err := checkAggrPlacement(f, true); err != nil {
 		return err
 	}
 
